@@ -15,7 +15,13 @@ HERE = os.path.dirname(os.path.abspath(__file__))
 sys.path.insert(0, HERE)
 from tcommon import TieBroken  # noqa: E402
 
-MODULES = ["ladders", "opcodes", "flags", "condconsts", "precomputed", "misc_consts", "streamtypes"]
+
+def _modules():
+    """every translator/gen_<name>.py is a generator module"""
+    return sorted(f[4:-3] for f in os.listdir(HERE) if f.startswith("gen_") and f.endswith(".py"))
+
+
+MODULES = _modules()
 
 
 def run(repo="/repo", out="/verif/coq/Gen", only=None):
